@@ -80,9 +80,9 @@ CLAIMED.update({
         ref='DESIGN.md section 7, C07'),
     'C08': dict(
         text='Tier 1: C08_literals_reassemble / C08_literals_roundtrip (literals cut out and put back verbatim for every query without the marker text; counterexample theorem for the marker); tier 2: C08_keyword_case (keyword location depends only on the '
-             'lower-cased text), blank/comment lines, indentation, trailing semicolons, join synonyms. The shallow parser functions (literal scanner = the real regex on ALL strings <= 8-10 over {quote,dquote,backslash,a}, cleanup, redundant table name, '
+             'lower-cased text), blank/comment lines, indentation, trailing semicolons, join synonyms; tier 3: C08_clause_order (ANY permutation of the clauses after SELECT/UPDATE parses to the same dictionary of actions and the same error, for all quiet clause bodies, at most one clause per statement group) and C08_clause_actions (the action of a clause depends only on its statement and body). The shallow parser functions (literal scanner = the real regex on ALL strings <= 8-10 over {quote,dquote,backslash,a}, cleanup, redundant table name, '
              'separate_actions, join expression, whole pipeline) are tied to the Lean Parse model, and respelled queries (case, clause order, layout, synonyms, hostile literal contents) are run through the real engine against the model result of the abstract query.',
-        note='Partial: tier 3 (invariance under clause order) is NOT proved, only exercised by the correspondence; the scanners replacing the regular expressions are tied to Python re, not proved equal to it.',
+        note='Hypothesis of tier 3: no space-separated token of a clause body starts (case-insensitively) with a reserved word (sufficient, not necessary; literals are cut out before this stage). The scanners replacing the regular expressions are tied to Python re, not proved equal to it.',
         ref='DESIGN.md section 7, C08'),
     'C09': dict(
         text='C09_escape_unescape: for EVERY column name and both quote characters the generated literal evaluates back to the name (Python literal evaluation modelled for exactly the escapes RBQL can produce, tied to ast.literal_eval); '
